@@ -2,7 +2,7 @@
 import sys, time, importlib
 from pyvc.contract import Registry
 from pyvc.verify import verify_function
-from pyvc.solve import solve_all
+from pyvc.solve import solve_all_split as solve_all
 
 def build_registry():
     reg = Registry()
